@@ -288,6 +288,30 @@ def main() -> int:
         check("names:rename", back == {"_pending": "_buf", "_take": "_cut"})
         back, _d = names.match(names.survey({"msmart/k.py": ast.parse(old + " def _extra(self):\n  return self._n\n")}), ref_of(old))
         check("names:nothing-missing", back == {})
+        # moves: definitions moved to another module, calling conventions, cross-module helpers and handed-out results are put back
+        from . import moves
+        lan_src = ("from msmart._security import Security\nfrom msmart.utils import packet_timestamp, queue_flush\n"
+                   "class _Packet:\n    _timestamp = staticmethod(packet_timestamp)\n    @classmethod\n    def encode(cls, command, *, device_id):\n        return command\n"
+                   "class _LanProtocol:\n    def _flush(self):\n        queue_flush(self._queue)\n"
+                   "class LAN:\n    async def _connect(self):\n        protocol = object()\n        return protocol\n"
+                   "    async def send(self, data):\n        self._protocol = await self._connect()\n        return _Packet.encode(data, device_id=self._device_id)\n")
+        trees = {"msmart/lan.py": ast.parse(lan_src),
+                 "msmart/_security.py": ast.parse("from hashlib import md5\nclass Security:\n    @classmethod\n    def sign(cls, data):\n        return md5(data).digest()\n"),
+                 "msmart/utils.py": ast.parse("import struct\ndef packet_timestamp():\n    return struct.pack('B', 1)\ndef queue_flush(queue):\n    try:\n        while True:\n            queue.get_nowait()\n    except KeyError:\n        pass\n")}
+        moves.undo(trees)
+        moves.undo_signatures(trees)
+        moves.undo_extractions(trees)
+        moves.undo_result_ownership(trees)
+        out = ast.unparse(trees["msmart/lan.py"])
+        check("moves:class-moved-back", "class Security" in out and "def sign" in out)
+        check("moves:method-alias", "def _timestamp()" in out and "struct.pack" in out and "import struct" in out)
+        check("moves:signature", "def encode(cls, device_id, command)" in out and "_Packet.encode(self._device_id, data)" in out)
+        check("moves:helper-inlined", "queue_flush(self._queue)" not in out and "self._queue.get_nowait()" in out)
+        check("moves:result-ownership", "self._protocol = protocol" in out and "await self._connect()" in out and "self._protocol = await" not in out)
+        same = {"msmart/lan.py": ast.parse("class Security:\n    def sign(self, data):\n        return data\n")}
+        before = ast.unparse(same["msmart/lan.py"])
+        moves.undo(same), moves.undo_signatures(same), moves.undo_extractions(same), moves.undo_result_ownership(same)
+        check("moves:identity-on-reference-shape", ast.unparse(same["msmart/lan.py"]) == before)
     finally:
         shutil.rmtree(tmp, ignore_errors=True)
     if fails:
